@@ -22,7 +22,7 @@
 ** own; otherwise the failure is the component's (reported at its own, shorter case) and
 ** the composite aspect is counted as masked.
 **
-** Parameters:  phase=base|range|slice|zip|filter|map|compose|heap|history|assign   hmax=N (history: largest size)
+** Parameters:  phase=base|range|slice|zip|filter|map|compose|heap|history|assign|midop (rangeneg=1 zipget=1 sliceget=1: see proposed/D29, D30, D31)   hmax=N (history: largest size)
 **              kinds=all|array,list,tuple,htuple,table,tree,range   maxn=N  amax=N  rmax=N
 **              zmax=N (zip child length bound)  flmax=N (filter length bound)  cset=small|wide
 */
@@ -1441,12 +1441,16 @@ static void a_case(struct aparam* q, struct aparam* other, int src, int scen) {
   if (vf_want_sample()) vf_sample("%s", cs);
 }
 
-static void phase_assign(void) {
-  a_fpred = $(Function, a_pred); a_fmap = $(Function, a_mapf);
+static void a_init(void) {
   a_list = new_raw(List, Int); a_arr = new_raw(Array, Int);
   for (int i = 0; i < 5; i++) { push(a_list, $I(i)); push(a_arr, $I(i)); }
   for (int i = 0; i < 64; i++) a_img[i] = new_raw(Int, $I(i + 1000));
   for (int n = 0; n < 4; n++) { a_zl[n] = new_raw(List, Int); a_za[n] = new_raw(Array, Int); for (int i = 0; i < n; i++) { push(a_zl[n], $I(i)); push(a_za[n], $I(i)); } }
+}
+
+static void phase_assign(void) {
+  a_fpred = $(Function, a_pred); a_fmap = $(Function, a_mapf);
+  a_init();
   static struct aparam P[96]; int np = 0;
   /* Range: every (start, stop, step) of a small grid */
   static const int rs[][3] = { {0,0,1}, {0,1,1}, {0,3,1}, {0,5,1}, {1,5,2}, {0,5,2}, {0,5,-1}, {0,5,-2}, {-2,3,1}, {2,9,3}, {0,7,3} };
@@ -1462,6 +1466,244 @@ static void phase_assign(void) {
     if (src == 2 && P[i].kind != AK_FILTER && P[i].kind != AK_MAP) continue;   /* copy of Range/Slice/Zip raises on this tree */
     a_case(&P[i], &other[P[i].kind], src, scen);
   }
+}
+
+/* ==== phase=midop: a refused operation in the middle of an iteration ==========================================
+**
+** For every iterable kind, every direction and every position p: walk to p (holding item p), perform one call the
+** kind must refuse (index len, -len-1, far out, INT64 limits; absent key / element; wrong-typed key or value; pop_at /
+** push_at out of range; a resize it cannot honour; a method the kind does not have; mutating a stack Tuple), demand an
+** exception from the accept set of that failure kind, then finish the walk: the held item still reads the same, the
+** remaining items and the total count are exactly those of the undisturbed walk, len is unchanged.  A *successful*
+** get in the middle is required not to disturb containers; for kinds whose get shares its cursor with iteration
+** (Range, Slice, Zip, Map) its effect is only recorded (evidence key successful_get_moves_iteration), not judged.
+*/
+
+enum { MK_ARRAY, MK_LIST, MK_TUPLE, MK_STUPLE, MK_TABLE, MK_TREE, MK_RANGE, MK_NEWRANGE, MK_SLICE, MK_NEWSLICE, MK_ZIP, MK_FILTER, MK_MAP, MK_N };
+static const char* mk_name[] = { "array", "list", "tuple", "stack-tuple", "table", "tree", "range", "new-range", "slice", "new-slice", "zip", "filter", "map" };
+enum { MC_INDEX, MC_ABSENT_ELEM, MC_ABSENT_KEY, MC_WRONG_TYPE, MC_RESIZE, MC_NO_METHOD, MC_STACK, MC_OK };
+enum { MO_GET_LEN, MO_GET_NEG, MO_GET_MAX, MO_GET_MIN, MO_GET_LEN3, MO_GET_FAR, MO_GET_NEGFAR, MO_SET_LEN, MO_POPAT_LEN, MO_POPAT_NEG, MO_PUSHAT_FAR, MO_PUSHAT_NEGFAR,
+       MO_REM_ABSENT_ELEM, MO_GET_STRKEY, MO_GET_ABSENT_KEY, MO_REM_ABSENT_KEY, MO_SET_STRKEY, MO_SET_STRVAL, MO_REM_STRKEY, MO_RESIZE_LESS,
+       MO_SET_NOMETHOD, MO_PUSH_STACK, MO_POPAT_STACK, MO_GET_NOMETHOD, MO_OKGET_FIRST, MO_OKGET_LAST, MO_N };
+static const struct { const char* name; int cls; } mo[] = {
+  { "get(len)", MC_INDEX }, { "get(-len-1)", MC_INDEX }, { "get(INT64_MAX)", MC_INDEX }, { "get(INT64_MIN)", MC_INDEX }, { "get(len+3)", MC_INDEX },
+  { "get(1000000)", MC_INDEX }, { "get(-1000000)", MC_INDEX }, { "set(len,v)", MC_INDEX }, { "pop_at(len)", MC_INDEX }, { "pop_at(-len-1)", MC_INDEX },
+  { "push_at(v,len+3)", MC_INDEX }, { "push_at(v,-len-3)", MC_INDEX }, { "rem(absent-element)", MC_ABSENT_ELEM }, { "get(String-key)", MC_WRONG_TYPE },
+  { "get(absent-key)", MC_ABSENT_KEY }, { "rem(absent-key)", MC_ABSENT_KEY }, { "set(String-key,v)", MC_WRONG_TYPE }, { "set(k,String-value)", MC_WRONG_TYPE },
+  { "rem(String-key)", MC_WRONG_TYPE }, { "resize(len-1)", MC_RESIZE }, { "set(0,v)-no-such-method", MC_NO_METHOD }, { "push-on-stack-tuple", MC_STACK },
+  { "pop_at(0)-on-stack-tuple", MC_STACK }, { "get(0)-no-such-method", MC_NO_METHOD }, { "successful-get(first)", MC_OK }, { "successful-get(last)", MC_OK },
+};
+static int m_rangeneg;                    /* judge get(-len-1) / get(-1000000) on Range and Slice too (see proposed/D29) */
+static int m_zipget;                      /* judge a refused get on a Zip whose earlier input is longer (see proposed/D30) */
+static uint64_t m_zip_partial;
+static int m_sliceget;                    /* run (and judge) a successful get in the middle of a Slice iteration (see proposed/D31) */
+static int m_kind; static int64_t m_first_key, m_last_key;
+static uint64_t m_okget_moved[MK_N], m_okget_seen[MK_N];
+
+static int m_applies(int k, int op, int n, int sized) {
+  switch (k) {
+  case MK_ARRAY: case MK_LIST: case MK_TUPLE:
+    return op <= MO_GET_LEN3 || (op >= MO_SET_LEN && op <= MO_GET_STRKEY) || ((op == MO_OKGET_FIRST || op == MO_OKGET_LAST) && n > 0);
+  case MK_STUPLE:
+    return op <= MO_GET_LEN3 || op == MO_SET_LEN || op == MO_REM_ABSENT_ELEM || op == MO_GET_STRKEY || op == MO_PUSH_STACK || op == MO_POPAT_STACK || ((op == MO_OKGET_FIRST || op == MO_OKGET_LAST) && n > 0);
+  case MK_TABLE: case MK_TREE:
+    return (op >= MO_GET_STRKEY && op <= MO_REM_STRKEY) || (op == MO_RESIZE_LESS && n >= 2) || ((op == MO_OKGET_FIRST || op == MO_OKGET_LAST) && n > 0);
+  case MK_RANGE: case MK_NEWRANGE: case MK_SLICE: case MK_NEWSLICE:
+    if (op == MO_GET_NEG || op == MO_GET_NEGFAR) return m_rangeneg;
+    if ((op == MO_OKGET_FIRST || op == MO_OKGET_LAST) && (k == MK_SLICE || k == MK_NEWSLICE) && !m_sliceget) return 0;
+    return op == MO_GET_LEN || op == MO_GET_LEN3 || op == MO_GET_FAR || op == MO_GET_STRKEY || op == MO_SET_NOMETHOD || ((op == MO_OKGET_FIRST || op == MO_OKGET_LAST) && n > 0);
+  case MK_ZIP: case MK_MAP:
+    return op <= MO_GET_LEN3 || op == MO_SET_NOMETHOD || ((op == MO_OKGET_FIRST || op == MO_OKGET_LAST) && n > 0);
+  case MK_FILTER:
+    return op == MO_GET_NOMETHOD || op == MO_SET_NOMETHOD;
+  }
+  return 0;
+}
+
+static int m_accepts(int cls, var e) {
+  switch (cls) {
+  case MC_INDEX: return e == IndexOutOfBoundsError;
+  case MC_ABSENT_ELEM: return e == ValueError || e == KeyError;
+  case MC_ABSENT_KEY: return e == KeyError;
+  case MC_WRONG_TYPE: return e == ValueError || e == TypeError || e == ClassError;
+  case MC_RESIZE: return e == FormatError || e == ResourceError || e == ValueError;
+  case MC_NO_METHOD: return e == ClassError;
+  case MC_STACK: return e == ValueError || e == ResourceError;
+  default: return e == NULL;
+  }
+}
+
+/* perform the call; the exception (or NULL) is the result (kept out of the loops: setjmp) */
+static var m_do(var x, int op, int64_t n) {
+  int map = m_kind == MK_TABLE || m_kind == MK_TREE;
+  switch (op) {
+  case MO_GET_LEN: return VF_CATCH(get(x, $I(n)));
+  case MO_GET_NEG: return VF_CATCH(get(x, $I(-n - 1)));
+  case MO_GET_MAX: return VF_CATCH(get(x, $I(INT64_MAX)));
+  case MO_GET_MIN: return VF_CATCH(get(x, $I(INT64_MIN)));
+  case MO_GET_LEN3: return VF_CATCH(get(x, $I(n + 3)));
+  case MO_GET_FAR: return VF_CATCH(get(x, $I(1000000)));
+  case MO_GET_NEGFAR: return VF_CATCH(get(x, $I(-1000000)));
+  case MO_SET_LEN: return VF_CATCH(set(x, $I(n), $I(5)));
+  case MO_POPAT_LEN: return VF_CATCH(pop_at(x, $I(n)));
+  case MO_POPAT_NEG: return VF_CATCH(pop_at(x, $I(-n - 1)));
+  case MO_PUSHAT_FAR: return VF_CATCH(push_at(x, $I(9), $I(n + 3)));
+  case MO_PUSHAT_NEGFAR: return VF_CATCH(push_at(x, $I(9), $I(-n - 3)));
+  case MO_REM_ABSENT_ELEM: return VF_CATCH(rem(x, $I(777)));
+  case MO_GET_STRKEY: return VF_CATCH(get(x, $S("x")));
+  case MO_GET_ABSENT_KEY: return VF_CATCH(get(x, $I(777)));
+  case MO_REM_ABSENT_KEY: return VF_CATCH(rem(x, $I(777)));
+  case MO_SET_STRKEY: return VF_CATCH(set(x, $S("x"), $I(1)));
+  case MO_SET_STRVAL: return VF_CATCH(set(x, $I(m_first_key), $S("x")));
+  case MO_REM_STRKEY: return VF_CATCH(rem(x, $S("x")));
+  case MO_RESIZE_LESS: return VF_CATCH(resize(x, (size_t)(n - 1)));
+  case MO_SET_NOMETHOD: return VF_CATCH(set(x, $I(0), $I(1)));
+  case MO_PUSH_STACK: return VF_CATCH(push(x, $I(1)));
+  case MO_POPAT_STACK: return VF_CATCH(pop_at(x, $I(0)));
+  case MO_GET_NOMETHOD: return VF_CATCH(get(x, $I(0)));
+  case MO_OKGET_FIRST: return map ? VF_CATCH(get(x, $I(m_first_key))) : VF_CATCH(get(x, $I(0)));
+  case MO_OKGET_LAST: return map ? VF_CATCH(get(x, $I(m_last_key))) : VF_CATCH(get(x, $I(n - 1)));
+  }
+  return NULL;
+}
+
+static int64_t m_code(var it) {
+  if (m_kind == MK_ZIP) return c_int(get(it, $I(0))) * 100 + c_int(get(it, $I(1)));
+  return c_int(it);
+}
+
+/* walk in one direction; at position p (holding item p) run `op` (op < 0: undisturbed); items -> mv[], count -> return, -1 on trouble */
+static int64_t mv[64]; static const char* volatile m_sym; static volatile int64_t m_held_before, m_held_after; static var m_opexc; static volatile int m_opdone;
+static int m_walk(var x, int backward, int p, int op, int64_t n, int horizon) {
+  static volatile int cnt; cnt = 0; m_sym = NULL; m_opdone = 0; m_opexc = NULL;
+  vf.executions++;
+  var e = VF_CATCH({
+    var it = backward ? iter_last(x) : iter_init(x);
+    while (it isnt Terminal) {
+      if (cnt >= horizon) { m_sym = "nonterminating"; break; }
+      if (it is NULL) { m_sym = "null-item"; break; }
+      mv[cnt] = m_code(it);
+      if (op >= 0 && cnt == p) {
+        m_held_before = mv[cnt];
+        m_opexc = m_do(x, op, n);
+        m_opdone = 1;
+        m_held_after = m_code(it);
+      }
+      cnt = cnt + 1;
+      it = backward ? iter_prev(x, it) : iter_next(x, it);
+    }
+  });
+  if (e && !m_sym) m_sym = "walk-raises";
+  return m_sym ? -1 : cnt;
+}
+
+static void m_report(const char* dir, const char* opname, const char* symptom, const char* fmt, ...) {
+  char label[200], detail[900];
+  snprintf(label, sizeof label, "midop/%s/%s/%s/%s", mk_name[m_kind], opname, dir, symptom);
+  va_list ap; va_start(ap, fmt); vsnprintf(detail, sizeof detail, fmt, ap); va_end(ap);
+  vf_violation(label, NULL, "%s", detail);
+}
+
+static void m_run(var x, const char* params) {
+  static int64_t base[2][64]; int bn[2];
+  int sized = implements_method(x, Len, len) && m_kind != MK_FILTER;
+  char cs[240];
+  snprintf(phasebuf, sizeof phasebuf, "midop/%s", mk_name[m_kind]); vf.phase = phasebuf;
+  vf_set_cur("midop kind=%s %s undisturbed", mk_name[m_kind], params);
+  for (int d = 0; d < 2; d++) {
+    int c = m_walk(x, d, -1, -1, 0, 40);
+    if (c < 0) { m_report(d ? "bwd" : "fwd", "undisturbed", m_sym, "the undisturbed walk failed (%s)", m_sym); return; }
+    bn[d] = c; memcpy(base[d], mv, c * sizeof mv[0]);
+  }
+  int64_t n = bn[0];
+  if (sized) { var e; uint64_t l = safe_len(x, &e); if (e || l != (uint64_t)n) { m_report("fwd", "undisturbed", "len", "len disagrees with the undisturbed forward walk"); return; } }
+  if (n > 0) { m_first_key = base[0][0]; m_last_key = base[0][n - 1]; }
+  for (int d = 0; d < 2; d++) for (int p = 0; p < bn[d]; p++) for (int op = 0; op < MO_N; op++) {
+    if (!m_applies(m_kind, op, (int)n, sized)) continue;
+    snprintf(cs, sizeof cs, "midop kind=%s %s dir=%s at=%d op=%s", mk_name[m_kind], params, d ? "bwd" : "fwd", p, mo[op].name);
+    if (vf.replay && strcmp(vf.replay, cs) != 0) continue;
+    if ((ncases++ & 255) == 0) vf_watchdog(60);
+    vf_set_cur("%s", cs);
+    vf.evaluations++; if (bn[d] >= 2) vf.nontrivial++;
+    const char* dn = d ? "bwd" : "fwd";
+    int shared = mo[op].cls == MC_OK && (m_kind >= MK_RANGE && m_kind != MK_FILTER) && !(m_sliceget && (m_kind == MK_SLICE || m_kind == MK_NEWSLICE));
+    int c = m_walk(x, d, p, op, n, bn[d] + HORIZON);
+    if (!m_opdone) { m_report(dn, mo[op].name, "position-not-reached", "the walk ended before position %d", p); continue; }
+    if (!m_accepts(mo[op].cls, m_opexc)) {
+      m_report(dn, mo[op].name, m_opexc ? "wrong-exception" : "no-exception", "%s in the middle of the iteration gave %s", mo[op].name, vf_exc_name(m_opexc));
+      continue;
+    }
+    int moved = c != bn[d] || m_held_after != m_held_before;
+    for (int i = 0; i < c && i < bn[d] && !moved; i++) if (mv[i] != base[d][i]) moved = 1;
+    if (shared) { m_okget_seen[m_kind]++; if (moved) m_okget_moved[m_kind]++; continue; }
+    if (m_kind == MK_ZIP && mo[op].cls == MC_INDEX && !m_zipget && (moved || c < 0)) { m_zip_partial++; continue; }
+    if (m_held_after != m_held_before) { m_report(dn, mo[op].name, "held-item-changed", "the item held at position %d read %" PRId64 " before and %" PRId64 " after %s (%s)", p, (int64_t)m_held_before, (int64_t)m_held_after, mo[op].name, vf_exc_name(m_opexc)); continue; }
+    if (c < 0) { m_report(dn, mo[op].name, m_sym, "after %s at position %d the walk failed: %s", mo[op].name, p, m_sym); continue; }
+    if (c != bn[d]) { m_report(dn, mo[op].name, c < bn[d] ? "iteration-ends-early" : "iteration-too-long", "after %s (%s) at position %d the walk yields %d items in all, %d without the call", mo[op].name, vf_exc_name(m_opexc), p, c, bn[d]); continue; }
+    if (moved) { m_report(dn, mo[op].name, "remaining-items-differ", "after %s at position %d the remaining items differ from the undisturbed walk", mo[op].name, p); continue; }
+    if (sized) { var e; uint64_t l = safe_len(x, &e); if (e || l != (uint64_t)n) { m_report(dn, mo[op].name, "len-changed", "len is %" PRIu64 " after the refused call, %" PRId64 " before", l, n); continue; } }
+    if (vf_want_sample()) vf_sample("%s -> %s, walk unchanged (%d items)", cs, vf_exc_name(m_opexc), c);
+  }
+}
+
+static void phase_midop(void) {
+  a_fpred = $(Function, a_pred); a_fmap = $(Function, a_mapf);
+  a_init();
+  m_rangeneg = (int)vf_param_i("rangeneg", 0);
+  m_zipget = (int)vf_param_i("zipget", 0);
+  m_sliceget = (int)vf_param_i("sliceget", 0);
+  for (size_t i = 0; i < 8; i++) hval[i] = new_raw(Int, $I((int64_t)i));
+  char ps[80];
+  /* containers of length 0..4 */
+  for (int n = 0; n <= 4; n++) for (int k = MK_ARRAY; k <= MK_TREE; k++) {
+    m_kind = k; snprintf(ps, sizeof ps, "n=%d", n);
+    if (k == MK_STUPLE) {
+      switch (n) {
+      case 0: { var t = tuple(); m_run(t, ps); } break;
+      case 1: { var t = tuple(hval[0]); m_run(t, ps); } break;
+      case 2: { var t = tuple(hval[0], hval[1]); m_run(t, ps); } break;
+      case 3: { var t = tuple(hval[0], hval[1], hval[2]); m_run(t, ps); } break;
+      default: { var t = tuple(hval[0], hval[1], hval[2], hval[3]); m_run(t, ps); } break;
+      }
+      continue;
+    }
+    var c = k == MK_ARRAY ? (var)new_raw(Array, Int) : k == MK_LIST ? (var)new_raw(List, Int) : k == MK_TUPLE ? (var)new_raw(Tuple)
+          : k == MK_TABLE ? (var)new_raw(Table, Int, Int) : (var)new_raw(Tree, Int, Int);
+    for (int i = 0; i < n; i++) { if (k <= MK_TUPLE) push(c, hval[i]); else set(c, hval[i], $I(i + 1000)); }
+    m_run(c, ps);
+    del_raw(c);
+  }
+  static const int rs[][3] = { {0,0,1}, {0,1,1}, {0,3,1}, {0,5,1}, {1,5,2}, {0,5,2}, {0,5,-1}, {0,5,-2}, {-2,3,1}, {2,9,3}, {0,7,3}, {1,7,2} };
+  for (size_t i = 0; i < sizeof rs / sizeof rs[0]; i++) {
+    snprintf(ps, sizeof ps, "params=%d,%d,%d", rs[i][0], rs[i][1], rs[i][2]);
+    { m_kind = MK_RANGE; var r = range($I(rs[i][0]), $I(rs[i][1]), $I(rs[i][2])); m_run(r, ps); }
+    { m_kind = MK_NEWRANGE; var r = new(Range, $I(rs[i][0]), $I(rs[i][1]), $I(rs[i][2])); m_run(r, ps); del(r); }
+  }
+  static const int ss[][3] = { {99,99,1}, {1,4,1}, {99,99,2}, {1,99,2}, {99,99,-1}, {99,99,-2}, {0,0,1}, {99,3,1}, {2,99,1} };
+  for (size_t i = 0; i < sizeof ss / sizeof ss[0]; i++) {
+    snprintf(ps, sizeof ps, "over=list[5] params=%d,%d,%d", ss[i][0], ss[i][1], ss[i][2]);
+    var A = ss[i][0] == 99 ? _ : (var)$I(ss[i][0]); var B = ss[i][1] == 99 ? _ : (var)$I(ss[i][1]);
+    { m_kind = MK_SLICE; var s = slice(a_list, A, B, $I(ss[i][2])); m_run(s, ps); }
+    { m_kind = MK_NEWSLICE; var s = new(Slice, a_list, A, B, $I(ss[i][2])); m_run(s, ps); del(s); }
+  }
+  for (int n = 0; n < 4; n++) for (int m = 0; m < 4; m++) {
+    m_kind = MK_ZIP; snprintf(ps, sizeof ps, "list[%d],array[%d]", n, m);
+    var z = zip(a_zl[n], a_za[m]); m_run(z, ps);
+  }
+  static const int fm[] = { 0x00, 0x1f, 0x0a, 0x15, 0x01, 0x10 };
+  for (size_t i = 0; i < sizeof fm / sizeof fm[0]; i++) {
+    m_kind = MK_FILTER; a_mask = fm[i]; snprintf(ps, sizeof ps, "over=list[5] mask=0x%02x", fm[i]);
+    var f = filter(a_list, a_fpred); m_run(f, ps);
+  }
+  { m_kind = MK_MAP; var m = map(a_list, a_fmap); m_run(m, "over=list[5]"); }
+  for (int n = 0; n < 4; n++) { m_kind = MK_MAP; snprintf(ps, sizeof ps, "over=list[%d]", n); var m = map(a_zl[n], a_fmap); m_run(m, ps); }
+  char ob[1600]; size_t o = 0; o += snprintf(ob + o, sizeof ob - o, "\"");
+  for (int k = 0; k < MK_N; k++) if (m_okget_seen[k] && o < sizeof ob - 120) o += snprintf(ob + o, sizeof ob - o, "%s %" PRIu64 "/%" PRIu64 "; ", mk_name[k], m_okget_moved[k], m_okget_seen[k]);
+  snprintf(ob + o, sizeof ob - o, "(moved/tried)\"");
+  vf_extra("successful_get_moves_iteration", "%s", ob);
+  if (m_zip_partial) vf_note("not judged on this run (zipget=0): %" PRIu64 " refused get calls on a Zip whose earlier input is longer rewrote the value tuple held by the iteration before raising (proposed/D30-zip-get-partial-write.md)", m_zip_partial);
+  if (!m_sliceget) vf_note("not run (sliceget=0): a successful get(slice, k) in the middle of an iteration over the same Slice; on this tree it rewrites the Slice's position and the walk then steps the underlying cursor through Terminal (proposed/D31-slice-get-clobbers-position.md)");
+  if (!m_rangeneg) vf_note("not judged on this run (rangeneg=0): get(-len-1) / get(-1000000) on Range and Slice (they return a value instead of raising; proposed/D29-range-get-negative-beyond-front.md)");
 }
 
 int main(int argc, char** argv) {
@@ -1497,6 +1739,7 @@ int main(int argc, char** argv) {
   else if (strcmp(ph, "heap") == 0) phase_heap();
   else if (strcmp(ph, "history") == 0) phase_history();
   else if (strcmp(ph, "assign") == 0) phase_assign();
+  else if (strcmp(ph, "midop") == 0) phase_midop();
   else { fprintf(stderr, "h_iter: unknown phase %s\n", ph); _exit(2); }
   alarm(0);
   vf_extra("judged_aspects", "%" PRIu64, judged_aspects);
